@@ -219,7 +219,9 @@ class CRS:
                 _dir_renames.get(ax.direction, ax.direction): ax.unit_name
                 for ax in self._crs.axis_info
             }
-            return units.get("y", ""), units.get("x", "")
+            # both axes of a polar CRS point the same way (e.g. north, north): they share the unit
+            common = next(iter(units.values()), "")
+            return units.get("y", common), units.get("x", common)
 
         raise ValueError("Neither projected nor geographic")  # pragma: no cover
 
